@@ -197,12 +197,17 @@ func reportConcurrent(c *rig.Ctx, w *world, cc CCase, first *rig.Failure) {
 		}
 	}
 	for len(cc.Burst) > 2 {
-		x := cc
-		x.Burst = append([]Case{}, cc.Burst[:len(cc.Burst)/2]...)
-		if !still(x) {
+		h := len(cc.Burst) / 2
+		x, y := cc, cc
+		x.Burst = append([]Case{}, cc.Burst[:h]...)
+		y.Burst = append([]Case{}, cc.Burst[h:]...)
+		if still(x) {
+			cc = x
+		} else if still(y) {
+			cc = y
+		} else {
 			break
 		}
-		cc = x
 	}
 	rec(c, rig.Failure{Kind: f.Kind, Class: f.Class, What: "under concurrency — " + f.What + " {" + describeCC(cc) + "}", Case: cc, Impl: f.Impl, Model: f.Model})
 }
